@@ -5,6 +5,10 @@ import json, subprocess, os
 TECH = "contract-based deductive verification of the real Go code: VCs generated from go/ssa of /repo (govc), contracts in //@ comment files, obligations discharged by z3 4.8.12 / z3 5.1.0 / cvc5 1.0.3 and an exact polynomial normaliser"
 
 claimed = {
+ "C06": dict(
+   text="VerifyBatch is verified, for every batch length (any n >= 0, any number of 64-entry chunks plus remainder, symbolic chunk size) and every mixture of entries, against a contract whose loop invariants hold at all nine loops: (G1) an entry that single verification (verifyWithOptionsNoPanic, itself verified against the documented predicate) accepts is never reported false, i.e. every entry reported false is one single verification rejects; (G2) the summary flag is exactly the conjunction of the per-entry results; the result vector is fresh with one element per entry; errors exactly for an over-long context, mismatched argument counts or a failing entropy source; (S1) a chunk is handed to the batch equation only after every entry of it passed every non-equation acceptance condition of single verification under the same options; entries decided by the fallback or the remainder loop carry single verification's verdict; no panic for any malformed entry. Quantified invariants are discharged with deterministic instantiation, skolemisation and a case split on the updated entry.",
+   note="NOT proved, and named as assumptions in the evidence: the Bos-Coster multi-scalar multiplication and its heap (trusted contract, memory safety and magnitudes only), hence that the point tested is the randomised combination of the entries; and the probabilistic soundness of the batch equation (the 2^-120 clause, M7), which a deductive verifier cannot express. Consequently 'reported true => valid' for batch-accepted chunks is not established here, and a change that corrupts the scalars/points/hash inputs of the batch path without touching the checks above is not detected.",
+   ref="DESIGN.md §6 C06, §13"),
  "C08": dict(
    text="The contracts of every exported function of ed25519 (non-batch) and extra/x25519 are written once, configuration-independently, in terms of mathematical spec functions; the code of each build configuration (assembly selector, Go selector with the unsafe and with the subtle conditional move, 64- and 32-bit limbs, GOARCH=386 in the thorough tier) is verified against those same contracts together with every internal function it uses. Two configurations therefore return identical bytes for identical inputs. Quick tier: the five configurations that cover every compiled combination of selector x conditional move x limb width; thorough: all seven including a 32-bit target.",
    note="Identity is a corollary of each configuration meeting the same specification, not a pairwise comparison. Not covered: VerifyBatch (batch_verify.go is not under contract, so limb128bits is not examined). Results left to assumed postconditions (group result of DoubleScalarmultVartime, rejection direction of decoding, the assembly selector's functional contract) are equal across configurations only under those assumptions.",
@@ -76,9 +80,8 @@ claimed = {
 }
 
 not_applicable = {
- "C03": "not claimed: the statement needs (a) the lemma sign(..) => vspec(..) = true, whose proof goes through the group-level result of DoubleScalarmultVartime -- an assumed postcondition in the current contracts -- and the prime-order facts about honest R and A (M4), and (b) acceptance by VerifyBatch at every position and size, but batch_verify.go is not under functional contracts. The canonical-S half (S < L) is covered by C02/C04/C19 (sign writes modm.Contract of a reduced value; proved). No other technique is substituted.",
- "C06": "not claimed: VerifyBatch, the Bos-Coster heap and multiScalarmultVartime are not under functional contracts (they need quantified loop invariants over arrays of points/scalars with symbolic chunk sizes, which the VC generator does not yet support), and the clause 'except with probability below 2^-120 over a uniformly random stream' is a probability statement that a deductive program verifier cannot express or decide. batch_verify.go is covered only by the global-immutability obligations of C15 and the secrecy-independent scans.",
- "C17": "not claimed: exactness of multiScalarmultVartime (sum of [s_i]P_i) needs the heap invariants and a group-level loop invariant for the Bos-Coster loop, which are not built; the statement is also only true outside a degenerate case the property itself calls negligible (second-largest scalar reaching zero before the 128-bit scalars are inserted, DESIGN.md §6 C17), and 'negligible fraction of entropy streams' is not expressible as a contract.",
+ "C03": "not claimed: the statement needs (a) the lemma sign(..) => vspec(..) = true, whose proof goes through the group-level result of DoubleScalarmultVartime -- an assumed postcondition in the current contracts -- and the prime-order facts about honest R and A (M4), and (b) acceptance by VerifyBatch at every position and size: VerifyBatch's contract (C06) proves that a valid entry is never reported false, which together with (a) would give the batch half, but (a) is missing. The canonical-S half (S < L) is covered by C02/C04/C19 (sign writes modm.Contract of a reduced value; proved). No other technique is substituted.",
+ "C17": "not claimed: exactness of multiScalarmultVartime (sum of [s_i]P_i) needs the heap order/permutation invariants and a group-level loop invariant for the Bos-Coster loop, which are not built (the routine has only a trusted safety contract); the statement is also only true outside a degenerate case the property itself calls negligible (second-largest scalar reaching zero before the 128-bit scalars are inserted, DESIGN.md §6 C17), and 'negligible fraction of entropy streams' is not expressible as a contract.",
 }
 
 props = [json.loads(l) for l in open('/verif/properties.jsonl')]
